@@ -1,4 +1,159 @@
-import EE.Model.Program
+import EE.Props.C16
+import EE.Lemmas.StdInv
+/-! # C06 — assignments update the context exactly as written -/
 namespace EE.Props.C06
-theorem placeholder : True := trivial
+open EE EngineM
+
+variable {σ : Type}
+
+/-- What an observer sees of an outcome: the result, the context and the registrations
+(not the trace of handler invocations, which names the handler that ran). -/
+def obs {α : Type} (o : Res α × World σ) : Res α × CtxMap × Regs := (o.1, o.2.ctx, o.2.regs)
+
+/-- A name that was never bound reads as None. -/
+theorem unbound_reads_none (inv : Inv σ) (x : Name) (w : World σ) (hw : w.Clean) (hx : alookup x w.ctx = none) :
+    exec inv (.ref x) w = (.ok Value.none, w) := by
+  simp only [exec, ctxValue, bind'_ok (ctxGet_clean hw), hx]; rfl
+
+/-- A bound variable reads as its value; later statements observe the binding made so far. -/
+theorem bound_reads_value (inv : Inv σ) (x : Name) (v : Value) (w : World σ) (hw : w.Clean) (hx : alookup x w.ctx = some (.var v)) :
+    exec inv (.ref x) w = (.ok v, w) := by
+  simp only [exec, ctxValue, bind'_ok (ctxGet_clean hw), hx]; rfl
+
+theorem set_then_get (x : Name) (v : Value) (w : World σ) (hw : w.Clean) :
+    alookup x (ctxSet x (.var v) w).2.ctx = some (.var v) := by
+  rw [ctxSet_clean hw]; simp [alookup_cons]
+
+theorem set_other_unchanged (x y : Name) (v : Value) (w : World σ) (hw : w.Clean) (h : x ≠ y) :
+    alookup y (ctxSet x (.var v) w).2.ctx = alookup y w.ctx := by
+  rw [ctxSet_clean hw]; simp [alookup_cons, h]
+
+/-- A program's value is the value of its last statement; statements run in program order, each
+in the world its predecessors left; an empty program yields None. -/
+theorem empty_program (inv : Inv σ) (w : World σ) : exec inv (.stmt []) w = (.ok Value.none, w) := rfl
+
+theorem chain_step (inv : Inv σ) (last : Value) (e : AST) (es : List AST) (w w1 : World σ) (v : Value)
+    (h : exec inv e w = (.ok v, w1)) : execChain inv last (e :: es) w = execChain inv v es w1 := by
+  simp only [execChain, bind'_ok h]
+
+theorem chain_last (inv : Inv σ) (last : Value) (w : World σ) : execChain inv last [] w = (.ok last, w) := rfl
+
+/-- A failing statement ends the program with that failure, in the world (context) reached so
+far: the bindings of the statements before it stay, nothing after it runs. -/
+theorem chain_fails (inv : Inv σ) (last : Value) (e : AST) (es : List AST) (w w1 : World σ) (r : Res Value)
+    (h : exec inv e w = (r, w1)) (hr : r.isOk = false) :
+    (execChain inv last (e :: es) w).2 = w1 ∧ (execChain inv last (e :: es) w).1.isOk = false := by
+  simp only [execChain]
+  obtain ⟨r', hb, h1, _⟩ := bind'_notok (f := fun v => execChain inv v es) h hr
+  rw [hb]; exact ⟨rfl, h1⟩
+
+/-- **The assignment step.** With `op` registered as a SETTER whose handler is `h`: both sides
+are evaluated (target first, then the right side), the handler's result is bound to the target
+name, and the assignment itself yields None. -/
+theorem setter_step (inv : Inv σ) (op x : Name) (e : AST) (cfg : InfixCfg) (w w1 w2 w3 : World σ) (a b v : Value)
+    (hw : w.Clean) (hcfg : alookup op w.regs.inf = some cfg) (hs : cfg.setter = true)
+    (ha : exec inv (.ref x) w = (.ok a, w1)) (hb : exec inv e w1 = (.ok b, w2))
+    (hw2 : w2.Clean) (hcfg2 : alookup op w2.regs.inf = some cfg)
+    (hv : invoke inv cfg.h [a, b] w2 = (.ok v, w3)) (hw3 : w3.Clean) :
+    exec inv (.binary op (.ref x) e) w = (.ok Value.none, { w3 with ctx := (x, .var v) :: w3.ctx }) := by
+  simp only [exec, bind'_ok (lookupE_some hw hcfg), hs, if_true]
+  have h1 : exec inv (.ref x) w = (.ok a, w1) := ha
+  simp only [exec] at h1
+  simp only [bind'_ok h1, bind'_ok hb, refName, bind'_lift_ok, bind'_ok (lookupE_some hw2 hcfg2), bind'_ok hv,
+    bind'_ok (ctxSet_clean hw3)]
+  rfl
+
+/-- An assignment whose target is not a plain name is an error (after both sides were evaluated). -/
+theorem non_name_target (inv : Inv σ) (op : Name) (lhs e : AST) (cfg : InfixCfg) (w w1 w2 : World σ) (a b : Value)
+    (hw : w.Clean) (hcfg : alookup op w.regs.inf = some cfg) (hs : cfg.setter = true)
+    (hl : ∀ n, lhs ≠ .ref n)
+    (ha : exec inv lhs w = (.ok a, w1)) (hb : exec inv e w1 = (.ok b, w2)) :
+    exec inv (.binary op lhs e) w = (.err .notReferenceExpr, w2) := by
+  simp only [exec, bind'_ok (lookupE_some hw hcfg), hs, if_true, bind'_ok ha, bind'_ok hb]
+  have : refName lhs = .err .notReferenceExpr := by
+    cases lhs <;> first | rfl | exact absurd rfl (hl _)
+  simp [this]
+
+/-- The compound assignment handlers compute exactly what the plain operators compute,
+for all ten operators and all operand values. -/
+theorem handlers_agree (a b : Value) :
+    builtinInfix ['+', '='] a b = builtinInfix ['+'] a b ∧ builtinInfix ['-', '='] a b = builtinInfix ['-'] a b ∧
+    builtinInfix ['*', '='] a b = builtinInfix ['*'] a b ∧ builtinInfix ['/', '='] a b = builtinInfix ['/'] a b ∧
+    builtinInfix ['%', '='] a b = builtinInfix ['%'] a b ∧
+    builtinInfix ['<', '<', '='] a b = builtinInfix ['<', '<'] a b ∧ builtinInfix ['>', '>', '='] a b = builtinInfix ['>', '>'] a b ∧
+    builtinInfix ['&', '='] a b = builtinInfix ['&'] a b ∧ builtinInfix ['^', '='] a b = builtinInfix ['^'] a b ∧
+    builtinInfix ['|', '='] a b = builtinInfix ['|'] a b := by
+  refine ⟨?_, ?_, ?_, ?_, ?_, ?_, ?_, ?_, ?_, ?_⟩ <;> rfl
+
+/-- Plain assignment: the handler of `=` returns its right operand. -/
+theorem assign_handler (a b : Value) : builtinInfix ['='] a b = .ok b := rfl
+
+/-- The compound operators, with the operator each expands to. -/
+def compound : List (Name × Name) :=
+  [(['+', '='], ['+']), (['-', '='], ['-']), (['*', '='], ['*']), (['/', '='], ['/']), (['%', '='], ['%']),
+   (['<', '<', '='], ['<', '<']), (['>', '>', '='], ['>', '>']), (['&', '='], ['&']), (['^', '='], ['^']), (['|', '='], ['|'])]
+
+/-- In the built-in table every compound operator is a SETTER bound to its own built-in handler and
+the operator it expands to is a CALC operator bound to *its* built-in handler. -/
+theorem compound_table : ∀ p ∈ compound,
+    (∃ c, alookup p.1 Regs.builtin.inf = some c ∧ c.setter = true ∧ c.h = .builtinInfix p.1) ∧
+    (∃ c, alookup p.2 Regs.builtin.inf = some c ∧ c.setter = false ∧ c.h = .builtinInfix p.2) := by decide
+
+/-- **`x op= e` binds `x` to exactly what `x op e` yields** (and fails when that fails): with the
+built-in table and handlers, whenever `x op e` evaluates to `v` from a world, `x op= e` from the
+same world yields None and leaves a context in which `x` is bound to `v` and which otherwise equals
+the context `x op e` left. Operands are evaluated once, target first. -/
+theorem compound_is_expansion (userInv : Nat → List Value → EngineM σ Value) (p : Name × Name) (hp : p ∈ compound)
+    (x : Name) (e : AST) (w w1 w2 : World σ) (a b : Value)
+    (hw : w.Clean) (hregs : w.regs = Regs.builtin)
+    (ha : exec (stdInv userInv) (.ref x) w = (.ok a, w1)) (hb : exec (stdInv userInv) e w1 = (.ok b, w2))
+    (hw2 : w2.Clean) (hregs2 : w2.regs = Regs.builtin) :
+    let plain := exec (stdInv userInv) (.binary p.2 (.ref x) e) w
+    let comp := exec (stdInv userInv) (.binary p.1 (.ref x) e) w
+    (∀ v, plain.1 = .ok v → comp.1 = .ok Value.none ∧ comp.2.ctx = (x, .var v) :: plain.2.ctx) ∧
+    (plain.1.isOk = false → comp.1 = plain.1 ∧ comp.2.ctx = plain.2.ctx) := by
+  obtain ⟨⟨c1, hc1, hs1, hh1⟩, ⟨c2, hc2, hs2, hh2⟩⟩ := compound_table p hp
+  have hagree : builtinInfix p.1 a b = builtinInfix p.2 a b := by
+    have := handlers_agree a b
+    simp only [compound, List.mem_cons, List.mem_nil_iff, or_false] at hp
+    rcases hp with rfl | rfl | rfl | rfl | rfl | rfl | rfl | rfl | rfl | rfl <;> simp only [this]
+  have hl1 : alookup p.1 w.regs.inf = some c1 := by rw [hregs]; exact hc1
+  have hl2 : alookup p.2 w.regs.inf = some c2 := by rw [hregs]; exact hc2
+  have hl1' : alookup p.1 w2.regs.inf = some c1 := by rw [hregs2]; exact hc1
+  have ha' := ha
+  simp only [exec] at ha'
+  -- the plain form
+  have hplain : exec (stdInv userInv) (.binary p.2 (.ref x) e) w =
+      (builtinInfix p.2 a b, { w2 with trace := w2.trace ++ [.call (.builtinInfix p.2) [a, b]] }) := by
+    simp only [exec, bind'_ok (lookupE_some hw hl2), hs2, Bool.false_eq_true, if_false, bind'_ok ha', bind'_ok hb, hh2]
+    rfl
+  -- the compound form, up to the handler call
+  intro plain comp
+  have hcomp : comp = bind' (invoke (stdInv userInv) c1.h [a, b]) (fun v => bind' (ctxSet x (.var v)) fun _ => pure' Value.none) w2 := by
+    show exec (stdInv userInv) (.binary p.1 (.ref x) e) w = _
+    simp only [exec, bind'_ok (lookupE_some hw hl1), hs1, if_true, bind'_ok ha', bind'_ok hb, refName, bind'_lift_ok,
+      bind'_ok (lookupE_some hw2 hl1')]
+  have hinvk : invoke (stdInv userInv) c1.h [a, b] w2 =
+      (builtinInfix p.2 a b, { w2 with trace := w2.trace ++ [.call (.builtinInfix p.1) [a, b]] }) := by
+    rw [hh1, ← hagree]; rfl
+  have hpl : plain = (builtinInfix p.2 a b, { w2 with trace := w2.trace ++ [.call (.builtinInfix p.2) [a, b]] }) := hplain
+  refine ⟨fun v hv => ?_, fun hnok => ?_⟩
+  · rw [hpl] at hv ⊢
+    simp only at hv
+    rw [hcomp, bind'_ok (by rw [hinvk, hv])]
+    have hc : ({ w2 with trace := w2.trace ++ [Event.call (.builtinInfix p.1) [a, b]] } : World σ).Clean := hw2
+    rw [bind'_ok (ctxSet_clean hc)]
+    exact ⟨rfl, rfl⟩
+  · rw [hpl] at hnok ⊢
+    simp only at hnok
+    obtain ⟨r', hb', _, _⟩ := bind'_notok (f := fun v => bind' (ctxSet x (.var v)) fun _ => pure' Value.none) hinvk hnok
+    rw [hcomp]
+    cases hres : builtinInfix p.2 a b with
+    | ok v => rw [hres] at hnok; simp [Res.isOk] at hnok
+    | err er => simp [bind', hinvk, hres]
+    | panic => simp [bind', hinvk, hres]
+    | deadlock => simp [bind', hinvk, hres]
+    | hang => simp [bind', hinvk, hres]
+    | unmodelled => simp [bind', hinvk, hres]
+
 end EE.Props.C06
